@@ -14,11 +14,19 @@ RULE = ("TLC enumerates every worker script of TimeoutGen (SetHeader/WriteHeader
         "return / end by cancel or expiry / finish by return or panic, in every order); quick: all schedules in which work "
         "acts after its call returned plus a seeded sample of the others (1600), thorough: a seeded sample of 22000 (4/5 "
         "with such stale work), executed step by step and validated against one monitor per call + Isolation "
-        "(TimeoutSess.tla). distinct = distinct (driver, script or schedule) pairs.")
+        "(TimeoutSess.tla). Wiring: TLC enumerates every (settings, request) case of TimeoutWireImpl (engine / client / "
+        "server-wide timeout x per-route / per-call / per-method value x middleware switch x caller deadline; requests "
+        "offering <=2 (thorough <=3) Upgrade / Accept elements out of websocket, WebSocket, h2c, TLS/1.0, text/event-stream, "
+        "Text/Event-Stream, application/json, */* as one value, a list or two header lines, with or without Connection: "
+        "Upgrade); each case is run with 1-6 scripts (thorough 3-25) through rest.Server, TimeoutHandler, zrpc.NewClient + "
+        "WithCallTimeout and the interceptor chain zrpc.NewServer builds; the reset event carries the settings and the "
+        "request as they are, Layer P (TmoChoices / ExemptChoices) decides which timeout is owed and whether the request "
+        "is exempt. distinct = distinct (driver, script or schedule or case) pairs.")
 
 FAM = "timeout"
 DRV = ["zz_verif_c04_timeout_test.go"]
 SDRV = ["zz_verif_c04_timeout_test.go", "zz_verif_c04_sess_test.go"]
+ZDRV = ["zz_verif_c04_wire_test.go", "zz_verif_c04_wire_wb_test.go", "zz_verif_c04_wire_nowb_test.go"]
 TRACE = ("TimeoutTrace", "TimeoutTrace.cfg")
 STRACE = ("TimeoutSessTrace", "TimeoutSessTrace.cfg")
 
@@ -49,11 +57,10 @@ def check(run):
 
     def design():
         try:
-            if thorough:    # the long configurations of the two model families side by side
-                _par(lambda: _design(run, thorough), lambda: _design2(run, thorough))
+            if thorough:    # the long configurations of the model families side by side
+                _par(lambda: _design(run, thorough), lambda: _design2(run, thorough), lambda: _design3(run, thorough))
             else:
-                _design(run, thorough)
-                _design2(run, thorough)
+                _par(lambda: (_design(run, thorough), _design2(run, thorough)), lambda: _design3(run, thorough))
         except BaseException as ex:  # noqa: re-raised in the main thread
             err.append(ex)
     th = threading.Thread(target=design)
@@ -87,6 +94,10 @@ def _par(*fns):
 
 def _design(run, thorough):
     run.assumptions += [
+        "wiring cases: websocket-upgrade / event-stream requests in their canonical form (Upgrade: websocket with "
+        "Connection: Upgrade; Accept: text/event-stream) must be exempt, requests that carry websocket / event-stream "
+        "spelled or combined otherwise may be, every other request (h2c or TLS upgrade offers, other media types) must "
+        "not be; the most specific timeout setting given for a call is the one it is owed",
         "real timers (context.WithTimeout) are used, but no recorded fact depends on speed: expiry is read from ctx.Err() "
         "and from monotonic clock readings compared with <= / >= in the direction that load can only make safer",
         "a wrapper that has not returned 30 s after its deadline while only a context-ignoring worker is in its way is "
@@ -143,14 +154,43 @@ def _design2(run, thorough):
                              "(ReturnsWithoutWorker)")
 
 
+def _design3(run, thorough):
+    """design level, third part: the wiring -- which wrapper with which timeout, from settings in layers and from
+    what the request offers (small models; side by side with the other two parts)"""
+    # quick: the generation run of the drivers (TimeoutWireGen.cfg: all settings; requests with <= 2 header elements
+    # under one setting) checks Property and WireRefines on the very cases it prints
+    if thorough:
+        run.model_check(FAM, "TimeoutWireImpl", "TimeoutWireImplMC.cfg", workers=8, timeout=1500,
+                        note="Layer I wiring (engine / zrpc client / zrpc server: global, per-route, per-call, per-method "
+                             "timeouts, middleware switch; literal first-line test for websocket / event-stream) |= Layer P "
+                             "TmoChoices / ExemptChoices + monitor, settings x requests with <= 3 header elements")
+    run.model_check(FAM, "TimeoutWireImpl", "TimeoutWireImplBugSkipZero.cfg", workers=2, expect="violation",
+                    note="documented counterexample: client interceptor only installed for a client-level timeout > 0, "
+                         "per-call timeout never read (DeadlineShrinks)")
+    if thorough:
+        run.model_check(FAM, "TimeoutWireImpl", "TimeoutWireImplBugAnyUpgrade.cfg", workers=2, expect="violation",
+                        note="documented counterexample: every request with an Upgrade header is exempt (DeadlineShrinks)")
+        run.model_check(FAM, "TimeoutWireImpl", "TimeoutWireImplTokens.cfg", workers=4,
+                        note="recognising websocket / event-stream in any spelling, list or line also satisfies Layer P "
+                             "(the statement does not say how an exempt request is recognised)")
+        run.model_check(FAM, "TimeoutWireImpl", "TimeoutWireImplBugMaxRoute.cfg", workers=2, expect="violation",
+                        note="documented counterexample: a route group without its own timeout gets the largest one")
+
+
 def _drivers(run, thorough, only):
     # ---- spec -> code: worker scripts
-    http, val, sg, sg3 = _par(
+    http, val, sg, sg3, wire = _par(
         lambda: run.generate(FAM, "TimeoutGen", "TimeoutGenHttp4.cfg" if thorough else "TimeoutGenHttp3.cfg"),
         lambda: run.generate(FAM, "TimeoutGen", "TimeoutGenVal.cfg"),
         lambda: run.generate(FAM, "TimeoutSessGen", "TimeoutSessGenT.cfg" if thorough else "TimeoutSessGenQ.cfg")
         if only in (None, "sess") else [],
-        lambda: run.generate(FAM, "TimeoutSessGen", "TimeoutSessGenT3.cfg") if thorough and only in (None, "sess") else [])
+        lambda: run.generate(FAM, "TimeoutSessGen", "TimeoutSessGenT3.cfg") if thorough and only in (None, "sess") else [],
+        lambda: run.generate(FAM, "TimeoutWireImpl", "TimeoutWireGenT.cfg" if thorough else "TimeoutWireGen.cfg")
+        if only in (None, "wire") else [])
+    for st in run.mc:
+        if st["cfg"].startswith("TimeoutWireGen") and "WireRefines" not in st["note"]:
+            st["note"] += ("; the same run checks INVARIANTS Property WireRefines (Layer I wiring |= Layer P) on the "
+                           "cases it prints")
     env = {"VERIF_C04_CFGS": 3 if thorough else 2, "VERIF_C04_REPS": 8 if thorough else 2,
            "VERIF_C04_PAR": 32 if thorough else 24}
     tmo = 2400 if thorough else 600
@@ -159,6 +199,27 @@ def _drivers(run, thorough, only):
         for b in beh:
             run.distinct.add((label, str(b)))
 
+    wth, werr = None, []
+    if only in (None, "wire"):
+        # the wiring cases are independent of everything below: side by side with it
+        def wiring():
+            try:
+                _wiring(run, thorough, env, tmo, note, wire, http, val)
+            except BaseException as ex:  # noqa: re-raised in the main thread
+                werr.append(ex)
+        wth = threading.Thread(target=wiring)
+        wth.start()
+    try:
+        _drivers2(run, thorough, only, env, tmo, note, http, val, sg, sg3)
+    finally:
+        if wth:
+            wth.join()
+    if werr:
+        raise werr[0]
+    run.evaluations = run.traces
+
+
+def _drivers2(run, thorough, only, env, tmo, note, http, val, sg, sg3):
     if only in (None, "sess"):
         _sessions(run, thorough, env, tmo, note, sg, sg3)
     if only in (None, "rest"):
@@ -188,6 +249,41 @@ def _drivers(run, thorough, only):
         tr4 = run.go_driver("core/fx", DRV, "TestVerifC04Fx$", inp=val, env=env, cpu=1, timeout=tmo)
         run.validate(FAM, *TRACE, _merge(run, [tr1, tr2, tr3, tr4], "cpu.ndjson"), label="GOMAXPROCS-1-2", timeout=1800)
     run.evaluations = run.traces
+
+
+def _wire_jobs(run, cases, scripts, per, salt):
+    """pair every TLC-generated wiring case with `per` worker scripts (seeded).  The two hints in a case come
+    from Layer P (TimeoutWireImpl.tla: MayWait / EndsSoon) and are used for steering only: a call that nothing
+    is bound to end gets no script that blocks (it would cost a watchdog, whatever the verdict)."""
+    import random
+    rnd = random.Random(run.seed * 7919 + salt)
+    free = [s for s in scripts if not any(op["op"] in ("await", "ignore") for op in s)]
+    jobs = []
+    for c in cases:
+        pool = scripts if (c["inl"] or c["fin"]) else free
+        for s in rnd.sample(pool, min(per, len(pool))):
+            jobs.append({"case": c, "script": s, "steer": rnd.randrange(3)})
+    rnd.shuffle(jobs)
+    return jobs
+
+
+def _wiring(run, thorough, env, tmo, note, wire, http, val):
+    """settings in layers (engine / client / server wide, per route / per call / per method, middleware on or
+    off) and requests offering any mix of Upgrade / Accept elements: every case TLC enumerates from
+    TimeoutWireImpl.tla is run against the code that decides which wrapper a call gets; the reset events carry
+    the settings and the request as they are and Layer P decides which timeout is owed / whether it is exempt"""
+    rest = [c for c in wire if c["kind"] == "rest"]
+    direct = [c for c in rest if c["mw"] and not c["ov"]]          # TimeoutHandler(d) has one layer only
+    rpc = [c for c in wire if c["kind"] in ("rpcc", "rpcs")]
+    j1 = _wire_jobs(run, direct, http, 3 if thorough else 1, 11)
+    j2 = _wire_jobs(run, rest, http, 3 if thorough else 2, 12)
+    j3 = _wire_jobs(run, rpc, val, len(val) if thorough else 6, 13)
+    trs = [run.go_driver("rest/handler", DRV, "TestVerifC04RestWire$", inp=j1, env=env, timeout=tmo),
+           run.go_driver("rest", ["zz_verif_c04_engine_test.go"], "TestVerifC04EngineWire$", inp=j2, env=env, timeout=tmo),
+           run.go_driver("zrpc", ZDRV, "TestVerifC04ZrpcWire$", inp=j3, env=env, timeout=tmo)]
+    run.validate(FAM, *TRACE, _merge(run, trs, "wire.ndjson"), label="wiring", timeout=1800)
+    for label, jobs in (("wire-handler", j1), ("wire-engine", j2), ("wire-zrpc", j3)):
+        note(label, jobs)
 
 
 def _stale(sched):
@@ -254,16 +350,24 @@ LEVEL_TEXT = ("Exhaustive TLC model checking that the timeoutWriter mutex/flag/b
               "timeouthandler.go (PlusCal, all interleavings with expiry, incl. liveness of returning) satisfy the Layer-P "
               "monitor, that a session of calls through one handler value with stale handlers keeps every call's client "
               "isolated (TimeoutSessImpl), and that the context derivation under a caller-supplied parent deadline returns "
-              "at min(caller, now+timeout) (TimeoutDeadlineImpl), plus conformance: every TLC-enumerated worker script is "
+              "at min(caller, now+timeout) (TimeoutDeadlineImpl), and that the wiring (which wrapper with which timeout, from "
+              "global / per-route / per-call / per-method settings and from the request's Upgrade / Accept headers) picks a "
+              "timeout and an exemption the statement admits (TimeoutWireImpl), plus conformance: every TLC-enumerated worker script is "
               "executed against the five real wrappers (handler, engine routes, rpc server, rpc client, fx), TLC-enumerated "
-              "multi-call schedules against one real TimeoutHandler value, and every call/session is validated by TLC.")
+              "multi-call schedules against one real TimeoutHandler value, every TLC-enumerated wiring case against rest.Server, "
+              "zrpc.NewClient and the zrpc server's interceptor chain, and every call/session is validated by TLC.")
 LEVEL_NOTE = ("Trusted: TLC/SANY/PlusCal translator, Go toolchain, the harness ResponseWriter and event ordering (A.5). Real "
               "code is sampled: the both-ready select race is rare without a hook and is covered exhaustively only at "
               "design level; Flush/Hijack/Push and streaming gRPC are not covered; 'stuck' relies on a 30 s watchdog (this is also "
               "how a later-than-timeout caller deadline that replaces the timeout shows for fx, whose fn sees no context: the "
               "far-later caller deadline makes it 'never'; a moderately later one is only covered at design level by "
               "PromptReturn). Multi-call sessions are bound to rest/handler.TimeoutHandler (the wrapper with per-request "
-              "state); the rpc interceptors and fx keep no state between calls and are driven call by call.")
+              "state); the rpc interceptors and fx keep no state between calls and are driven call by call. Wiring: the zrpc "
+              "client is driven through the real *grpc.ClientConn but without a network (the last interceptor of the chain "
+              "plays the remote side); the zrpc server's chain is taken from the unexported setupUnaryInterceptors "
+              "(white-box; skipped when not accessible), all other middlewares switched off; a per-method timeout on a "
+              "server whose own Timeout is 0 and everything with the timeout middleware switched off is left free by the "
+              "specification; exempt requests are recognised from header elements the driver lower-cases and splits.")
 TECHNIQUE = "TLA+ monitor spec (Timeout) + PlusCal implementation model, TLC-generated scripts replayed, TLC trace validation"
 DESIGN_REF = "DESIGN.md Part B C04"
 
